@@ -41,7 +41,8 @@ def fam_history(rng, n, n_calls):
         for k in range(n_calls):
             pi = rng.randrange(3)
             call = {"kind": rng.choice(["solve", "simulate"]), "params": G.params_json(psets[pi], q), "pi": pi,
-                    "leaf": rng.choice(["jax", "float", "numpy"])}
+                    "leaf": rng.choice(["jax", "float", "numpy"]),
+                    "reuse_object": k > 0 and (k * 7 + pi) % 2 == 0}      # one dict updated in place (parameter sweep)
             if call["kind"] == "simulate":
                 call["initial_states"] = inits[rng.randrange(2)]
                 call["seed"] = rng.choice([1, 2])
